@@ -30,8 +30,20 @@ enum Family {
     UploadStall,
 }
 
+#[derive(Clone, Copy, Debug, PartialEq, Eq)]
+enum Route {
+    Plain,
+    /// https origin, TLS straight to it
+    Tls,
+    /// https origin behind a plain CONNECT proxy
+    Tunnel,
+}
+
 struct Plan {
     fam: Family,
+    route: Route,
+    /// the TLS peer never answers the ClientHello (stall inside the handshake)
+    tls_handshake_stall: bool,
     t_ms: Option<u64>,
     r_ms: u64,
     body: BodyPlan,
@@ -51,6 +63,15 @@ struct Plan {
 
 const CONNECT_LAT: u64 = NS_PER_MS;
 
+#[cfg(feature = "native")]
+fn ca_cert() -> native_tls::Certificate {
+    native_tls::Certificate::from_pem(crate::tlspeer::CA_PEM.as_bytes()).expect("CA pem")
+}
+#[cfg(all(feature = "rustls-backend", not(feature = "native")))]
+fn ca_cert() -> rustls::pki_types::CertificateDer<'static> {
+    rustls_pemfile::certs(&mut crate::tlspeer::CA_PEM.as_bytes()).next().unwrap().unwrap()
+}
+
 fn gen(g: &mut G, thorough: bool) -> Plan {
     let fam = match g.below(10) {
         0..=3 => Family::NoFalseTimeout,
@@ -68,8 +89,17 @@ fn gen(g: &mut G, thorough: bool) -> Plan {
     }
     let head_len = body.wire.head_len;
     let frame_end = body.wire.frame_end;
+    let route = match fam {
+        Family::NoFalseTimeout | Family::Stall | Family::Drip => *g.pick(&[Route::Plain, Route::Plain, Route::Tls, Route::Tunnel]),
+        _ => Route::Plain,
+    };
+    if route != Route::Plain {
+        g.probe("route:tls-or-tunnel");
+    }
     let mut p = Plan {
         fam: fam.clone(),
+        route,
+        tls_handshake_stall: false,
         t_ms: None,
         r_ms: 30_000,
         body,
@@ -129,10 +159,14 @@ fn gen(g: &mut G, thorough: bool) -> Plan {
                 4 if frame_end > head_len => (head_len + g.usize_below(frame_end - head_len), "inside-body"),
                 _ => (head_len.min(frame_end), "between-head-and-body"),
             };
+            if fam == Family::Stall && p.route != Route::Plain && g.chance(1, 4) {
+                p.tls_handshake_stall = true;
+                g.probe("stall-inside-tls-handshake");
+            }
             // never pause at/after the end of the frame for length/chunked bodies (that is a complete response)
             let k = if p.body.framing != Framing::Close { k.min(frame_end.saturating_sub(1)) } else { k };
             p.k = k;
-            p.phase = phase;
+            p.phase = if p.tls_handshake_stall { "inside-tls-handshake" } else { phase };
             let wire = &p.body.wire.bytes;
             let (segs, _) = gen::segmentation(g, k, &p.body.wire.targets.clone());
             let mut sc = Script::from_wire(&wire[..k], &segs, End::Stall);
@@ -211,7 +245,7 @@ struct Obs {
 fn caller(p: &Plan) -> Obs {
     let mut o = Obs::default();
     let host = if p.body.host_is_domain { bodyx::HOST_NAME } else { bodyx::HOST_IP };
-    let url = format!("http://{}/hop0", host);
+    let url = if p.route == Route::Plain { format!("http://{}/hop0", host) } else { "https://secure.test/hop0".to_string() };
     o.start = attosim::now_ns();
     let t_in = o.start;
     let res = if p.fam == Family::UploadStall {
@@ -224,6 +258,14 @@ fn caller(p: &Plan) -> Obs {
         let mut rb = attohttpc::get(&url).read_timeout(Duration::from_millis(p.r_ms)).max_redirections(10);
         if let Some(t) = p.t_ms {
             rb = rb.timeout(Duration::from_millis(t));
+        }
+        if p.route != Route::Plain {
+            rb = rb.add_root_certificate(ca_cert());
+        }
+        if p.route == Route::Tunnel {
+            rb = rb.proxy_settings(attohttpc::ProxySettings::builder().https_proxy(url::Url::parse("http://proxy.test:3128").unwrap()).build());
+        } else {
+            rb = rb.proxy_settings(attohttpc::ProxySettings::builder().build());
         }
         rb.send()
     };
@@ -304,24 +346,63 @@ fn run(p: &Plan, ctx: &RunCtx) -> bodyx::Ran<Obs> {
     let faults = p.body.faults.clone();
     let seen2 = seen.clone();
     let upload_stall = if p.fam == Family::UploadStall { Some(p.k) } else { None };
-    sim.add_listener(
-        ip,
-        80,
-        ConnectBehaviour::Accept { latency_ns: CONNECT_LAT },
-        Some(Box::new(move |_info| {
-            let scripts = scripts.clone();
-            let mut peer = HttpPeer::new(
-                Arc::new(move |r, _c| {
-                    let idx = r.target.trim_start_matches("/hop").parse::<usize>().unwrap_or(0);
-                    scripts.get(idx).cloned().unwrap_or_default()
-                }),
-                seen2.clone(),
+    let mk_http = move || -> Box<dyn attosim::Peer> {
+        let scripts = scripts.clone();
+        let mut peer = HttpPeer::new(
+            Arc::new(move |r, _c| {
+                let idx = r.target.trim_start_matches("/hop").parse::<usize>().unwrap_or(0);
+                scripts.get(idx).cloned().unwrap_or_default()
+            }),
+            seen2.clone(),
+        );
+        peer.faults = Some(faults.clone());
+        peer.stop_reading_after = upload_stall;
+        Box::new(peer)
+    };
+    let tls_log = Arc::new(Mutex::new(crate::tlspeer::TlsLog::default()));
+    let hs_stall = p.tls_handshake_stall;
+    let mk_tls = {
+        let mk_http = mk_http.clone();
+        let tls_log = tls_log.clone();
+        move |conn: usize| -> Box<dyn attosim::Peer> {
+            if hs_stall {
+                // accepts the TCP connection (or the tunnel) and never answers the ClientHello
+                Box::new(crate::peers::RawPeer { script: Script::default(), on_first_bytes: true, started: false, received: Arc::new(Mutex::new(Vec::new())), faults: None, marker: None, opaque: true })
+            } else {
+                Box::new(crate::tlspeer::TlsPeer::new("good", mk_http(), tls_log.clone(), conn))
+            }
+        }
+    };
+    let lat = ConnectBehaviour::Accept { latency_ns: CONNECT_LAT };
+    match p.route {
+        Route::Plain => {
+            let mk = mk_http.clone();
+            sim.add_listener(ip, 80, lat, Some(Box::new(move |_info| mk())));
+        }
+        Route::Tls => {
+            let sip: IpAddr = "10.0.0.5".parse().unwrap();
+            sim.add_host("secure.test", vec![sip]);
+            let mk = mk_tls.clone();
+            sim.add_listener(sip, 443, lat, Some(Box::new(move |i| mk(i.conn))));
+        }
+        Route::Tunnel => {
+            let pip: IpAddr = "10.0.0.9".parse().unwrap();
+            sim.add_host("proxy.test", vec![pip]);
+            let mk = mk_tls.clone();
+            let plog = Arc::new(Mutex::new(crate::tlspeer::ProxyLog::default()));
+            sim.add_listener(
+                pip,
+                3128,
+                lat,
+                Some(Box::new(move |i| {
+                    let mk = mk.clone();
+                    let mut reply = Script::default();
+                    reply.acts.push(Act::Send(b"HTTP/1.1 200 Connection established\r\n\r\n".to_vec()));
+                    Box::new(crate::tlspeer::ConnectProxy::new(reply, true, Box::new(move |_a, conn| Some(mk(conn))), plog.clone(), i.conn))
+                })),
             );
-            peer.faults = Some(faults.clone());
-            peer.stop_reading_after = upload_stall;
-            Box::new(peer)
-        })),
-    );
+        }
+    }
     let out = sim.run(|| caller(p));
     let seen = seen.lock().unwrap().clone();
     bodyx::Ran { observed: out.result, history: out.history, sched_tape: out.sched_tape, seen }
@@ -345,11 +426,12 @@ pub fn scenario(g: &mut G, ctx: &RunCtx) -> RunReport {
             format!("run torn down: deadlock={} event_cap={} time_cap={}", ran.history.deadlock, ran.history.event_cap, ran.history.time_cap),
         ),
         Some(Err(m)) => violation("panic", m.clone()),
-        Some(Ok(o)) => oracle(&p, o, &ran.history, g),
+        Some(Ok(o)) => oracle(&p, o, &ran.history, &ran.seen, g),
     };
     let shape = format!(
-        "{:?}/{}/T={:?}/R={}/{:?}/{}/rr={}/drop={:?}/think={}",
+        "{:?}/{:?}/{}/T={:?}/R={}/{:?}/{}/rr={}/drop={:?}/think={}",
         p.fam,
+        p.route,
         p.phase,
         p.t_ms,
         p.r_ms,
@@ -370,8 +452,9 @@ pub fn scenario(g: &mut G, ctx: &RunCtx) -> RunReport {
         sched_tape: ran.sched_tape,
         describe: if ctx.describe {
             format!(
-                "family={:?} phase={} T={:?}ms R={}ms pause_at={} drip_delta={}ms hops={} hop_delay={}ms upload={}B think={:?} drop_after={:?} rereads={} body: {}",
+                "family={:?} route={:?} phase={} T={:?}ms R={}ms pause_at={} drip_delta={}ms hops={} hop_delay={}ms upload={}B think={:?} drop_after={:?} rereads={} body: {}",
                 p.fam,
+                p.route,
                 p.phase,
                 p.t_ms,
                 p.r_ms,
@@ -395,7 +478,7 @@ fn connect_latency_within(h: &History, t_in: u64, t_out: u64) -> u64 {
     h.connects.iter().filter(|c| c.t_start >= t_in && c.t_end <= t_out).map(|c| c.t_end - c.t_start).sum()
 }
 
-fn oracle(p: &Plan, o: &Obs, h: &History, g: &mut G) -> Verdict {
+fn oracle(p: &Plan, o: &Obs, h: &History, seen: &Seen, g: &mut G) -> Verdict {
     let tag = format!("{:?}:{}", p.fam, p.phase);
     // (e) census: once the response (or the failed send) is dropped, no watchdog thread and no
     // socket of the request survives, in zero simulated time
@@ -528,6 +611,12 @@ fn oracle(p: &Plan, o: &Obs, h: &History, g: &mut G) -> Verdict {
                 return Verdict::Pass;
             }
             let head_len = p.body.wire.head_len;
+            if p.tls_handshake_stall {
+                if send.res.is_ok() {
+                    return violation(format!("stalled-exchange-succeeded:{}", tag), "send() returned Ok although the TLS handshake never completed");
+                }
+                return Verdict::Pass;
+            }
             if p.k < head_len && p.fam == Family::Stall {
                 if send.res.is_ok() {
                     return violation(format!("stalled-exchange-succeeded:{}", tag), "send() returned Ok although the head never completed");
@@ -537,8 +626,26 @@ fn oracle(p: &Plan, o: &Obs, h: &History, g: &mut G) -> Verdict {
             if send.res.is_err() {
                 return Verdict::Pass;
             }
-            // body phase: what was delivered in total?
-            let delivered: usize = h.conns.first().map(|c| c.delivered as usize).unwrap_or(0);
+            // body phase: how much of the response (plaintext) had been delivered when the caller stopped?
+            let t_last = o.calls.last().map(|c| c.t_out).unwrap_or(0);
+            let delivered: usize = {
+                let mut n = 0usize;
+                if let Some(t0) = seen.times.first() {
+                    let mut at = *t0;
+                    for a in &p.scripts[0].acts {
+                        match a {
+                            Act::Wait(d) => at += *d,
+                            Act::Send(b) => {
+                                if at <= t_last {
+                                    n += b.len()
+                                }
+                            }
+                            _ => {}
+                        }
+                    }
+                }
+                n
+            };
             let wire = &p.body.wire.bytes;
             let body_delivered = if delivered > head_len { &wire[head_len..delivered.min(wire.len())] } else { &wire[0..0] };
             let r = ref_decode(p.body.framing, p.body.declared_len, body_delivered);
@@ -569,6 +676,7 @@ fn oracle(p: &Plan, o: &Obs, h: &History, g: &mut G) -> Verdict {
                     Err(_) => break,
                 }
             }
+            let _ = h;
             if p.body.framing != Framing::Close && !httpref::is_prefix(&o.output, &p.body.payload) {
                 return violation(format!("prefix-violated:{}", tag), "bytes read are not a prefix of the payload");
             }
